@@ -136,7 +136,16 @@ def pixel_case(ctx, rng, k):
     file_start = start if fam == "pod" else ydm_to_ms(2002, 187, 40000000)
     tp = timesgen.TimePass(fmt, nums, file_start)
     b = tp.build(ctx, rng)
-    b.lons, b.lats = tlon, tlat
+    b.lons, b.lats = tlon.copy(), tlat.copy()
+    # on every other pass ONE earth-location word of ONE unflagged line is out of range (an isolated bit error): the other
+    # 50 tie points of that line must still come back as stored (judged at the tie-point columns of that line)
+    bad_line = bad_tie = None
+    if k % 2 == 1:
+        bad_line, bad_tie = rng.randrange(n), rng.randrange(51)
+        if rng.random() < 0.5:
+            b.lons[bad_line, bad_tie] = rng.choice([200.0, -190.0, 250.0])
+        else:
+            b.lats[bad_line, bad_tie] = rng.choice([95.0, -100.0])
     data = b.tobytes()
     r = filegen.reader_class(fmt)(tle_dir=filegen.tle_dir(ctx), tle_name="TLE_%(satname)s.txt",
                                   interpolate_coords=True, adjust_clock_drift=False)
@@ -152,6 +161,21 @@ def pixel_case(ctx, rng, k):
         return
     d = angdist(np.asarray(lons), np.asarray(lats), flon, flat)
     c0, c1 = (4, 404) if res == "gac" else (24, 2024)
+    if bad_line is not None:
+        step = 8 if res == "gac" else 40
+        cols = [c0 + step * j for j in range(51) if j != bad_tie]
+        dt = d[bad_line, cols]
+        lim_t = 1e-4 if fam == "klm" else 0.012
+        if np.isnan(dt).any() or float(np.max(dt)) > lim_t:
+            j = int(np.nanargmax(np.where(np.isnan(dt), np.inf, dt)))
+            ctx.violation("%s: line %d carries one out-of-range earth-location word (tie point %d); its valid tie point at column %d "
+                          "comes back as (%s, %s) instead of (%.4f, %.4f)" % (
+                              fmt, bad_line, bad_tie, cols[j], np.asarray(lons)[bad_line, cols[j]], np.asarray(lats)[bad_line, cols[j]],
+                              flon[bad_line, cols[j]], flat[bad_line, cols[j]]), dict(payload, bad_line=bad_line, bad_tie=bad_tie),
+                          cls="tie-lost-to-bad-word")
+        # the rest of that line lies between a wild knot and its neighbours: not judged
+        d = np.delete(d, bad_line, axis=0)
+        ctx.branches["pixel/one-word-out-of-range"] += 1
     # POD words are quantised to 1/128 deg (up to 0.0056 deg great-circle at a tie point, about 0.01 deg after the cubic
     # across-track spline), and the extrapolation into the edge columns amplifies that input noise further; the limits of the property are applied as stated to KLM
     # files (same interpolator classes); POD files only get a coarse limit (0.06 / 0.08 deg) that still catches a tie-point
